@@ -130,6 +130,8 @@ func shapeStr(class string, walletLevel bool, rnd *rand.Rand) string {
 		return "W1/é世界\x00\xff"
 	case "exists":
 		return "W1/a0"
+	case "underscore":
+		return "W1/_hidden"
 	}
 	return class
 }
